@@ -12,21 +12,21 @@ Local Open Scope N_scope.
    survivors are exactly the non-faulty names in their original order, each
    with the entry its handler built *)
 Theorem C12_others_kept :
-  forall w names,
-    exists l, prep_entries true (dir_child w) names = Ok l /\
+  forall fx w names, fx_skip_child fx = true -> fx_skip_unreadable fx = true ->
+    exists l, prep_entries (skip_of fx) (dir_child w) names = Ok l /\
               map fst l = filter (fun n => negb (faulty w n)) names /\
               (forall n ci, In n names -> child_entry w n = Ok ci -> In (n, ci_entry ci) l).
 Proof. exact C12Facts.prep_entries_repaired_ok. Qed.
 Print Assumptions C12_others_kept.
 
 Theorem C12_order_preserved :
-  forall w names l, prep_entries true (dir_child w) names = Ok l -> l = kept (dir_child w) names.
+  forall skip w names l, prep_entries skip (dir_child w) names = Ok l -> l = kept (dir_child w) names.
 Proof. exact C12Facts.prep_entries_order_preserved. Qed.
 Print Assumptions C12_order_preserved.
 
 (* the whole DirHandler listing *)
 Theorem C12_listing_others_kept :
-  forall fx alts w enum, fx_skip_child fx = true ->
+  forall fx alts w enum, fx_skip_child fx = true -> fx_skip_unreadable fx = true ->
     exists l, dir_listing fx alts w enum = Ok l /\
       map fst l = filter (fun n => negb (faulty w n)) (dir_files fx alts w enum) /\
       (forall n ci, In n enum -> visible_dir alts w n = true -> child_entry w n = Ok ci ->
@@ -36,18 +36,18 @@ Print Assumptions C12_listing_others_kept.
 
 (* the child loop of the UMN handler, when no .cap file is itself malformed *)
 Theorem C12_umn_children_kept :
-  forall plf mode w names,
+  forall fx plf mode w names, fx_skip_child fx = true -> fx_skip_unreadable fx = true ->
     (forall n ci e, In n names -> child_entry w n = Ok ci ->
                     umn_append plf mode (w_cap w n) n ci <> Raise e) ->
-    exists l, prep_entries true (umn_child plf mode w) names = Ok l /\
+    exists l, prep_entries (skip_of fx) (umn_child plf mode w) names = Ok l /\
       forall n ci e, In n names -> child_entry w n = Ok ci ->
                      umn_append plf mode (w_cap w n) n ci = Ok (Some e) -> In (n, e) l.
 Proof. exact C12Facts.umn_children_others_kept. Qed.
 Print Assumptions C12_umn_children_kept.
 
-(* the only way a child can fail is FileNotFound *)
+(* a child fails with FileNotFound (no handler takes it) or OSError (its handler cannot read it), nothing else *)
 Theorem C12_child_failure_is_notfound :
-  forall w n e, child_entry w n = Raise e -> e = FileNotFound.
+  forall w n e, child_entry w n = Raise e -> e = FileNotFound \/ e = IOErr.
 Proof. exact DirFacts.child_entry_raises_notfound. Qed.
 Print Assumptions C12_child_failure_is_notfound.
 
@@ -66,6 +66,17 @@ Theorem C12_refuted_filtered_name :
                            map fst l = [lit "a.txt"%string].
 Proof. exact C12Facts.pinned_refuted_dotdot. Qed.
 Print Assumptions C12_refuted_filtered_name.
+
+(* D26 (before the repair): the handler chain takes a child — stat says regular file — but building its
+   entry fails with OSError (the HTML title of an unreadable file, a *.gophermap gone since the stat):
+   the whole listing is answered with that error *)
+Theorem C12_unreadable_refuted :
+  dir_listing head_before_d26 shipped_ignore d26_world d26_enum = Raise IOErr /\
+  umn_listing head_before_d26 shipped_ignore StripNone d26_world d26_enum = Raise IOErr /\
+  exists l, dir_listing repaired shipped_ignore d26_world d26_enum = Ok l /\
+            map fst l = [lit "a.txt"%string; lit "z.txt"%string].
+Proof. exact C12Facts.unreadable_refuted. Qed.
+Print Assumptions C12_unreadable_refuted.
 
 (* non-vacuity *)
 Example C12_example :
